@@ -31,7 +31,7 @@ UNITS = {
     "rate": ["Hz", "1/s", "GHz", "1/hr"],
     "spatial_frequency": ["1/m", "1/cm", "1/angstrom"],
     "velocity": ["m/s", "km/s", "cm/s", "mile/hr"],
-    "dimensionless": ["dimensionless"],
+    "dimensionless": ["dimensionless", "", "1"],
     "density": ["kg/m**3", "g/cm**3", "Msun/pc**3"],
     "number_density": ["1/m**3", "cm**-3"],
     "flux": ["W/m**2", "erg/s/cm**2", "kg/s**3"],
@@ -110,11 +110,14 @@ COPY_ENTRIES = {
     "to_value": lambda q, u, e, kw: q.to_value(u, equivalence=e, **kw),
     "to_equivalent": lambda q, u, e, kw: q.to_equivalent(u, e, **kw),
 }
+# the target given as a Unit object instead of its spelling
+for _n in ("to", "to_value", "to_equivalent"):
+    COPY_ENTRIES[_n + "-unitobj"] = (lambda f: lambda q, u, e, kw: f(q, Unit(u, registry=q.units.registry), e, kw))(COPY_ENTRIES[_n])
 INPLACE_ENTRIES = {
     "convert_to_units": lambda q, u, e, kw: q.convert_to_units(u, equivalence=e, **kw),
     "convert_to_equivalent": lambda q, u, e, kw: q.convert_to_equivalent(u, e, **kw),
 }
-DTYPES = ["float64", "float32"]
+DTYPES = ["float64", "float32", "int64"]
 
 
 def src_values(eq, fd):
@@ -128,6 +131,8 @@ def make(si_vals, unit, dtype, shape):
     vals = np.asarray(si_vals, dtype=np.float64) / float(u.base_value)
     if u.base_offset:
         vals = vals - float(u.base_offset) if False else vals
+    if dtype == "int64":
+        vals = np.array([2, 4, 8][: len(vals)] + [5] * max(0, len(vals) - 3))  # integer data: small whole numbers of the source unit
     vals = vals.astype(dtype)
     if shape == "scalar":
         return unyt_quantity(vals[1], unit, name="src")
@@ -141,7 +146,7 @@ def stored_si(q):
 
 def rtol_for(dtype, eq):
     k = 8.0 if eq in ("effective_temperature", "sound_speed", "lorentz") else 4.0
-    return k * 64 * float(np.finfo(dtype).eps)
+    return k * 64 * float(np.finfo("float64" if dtype == "int64" else dtype).eps)
 
 
 def run_entry(f, q, u, e, kw):
@@ -160,7 +165,9 @@ def part_formula(ctx, shard):
             for (fd, td), f in F.items():
                 for fu, tu, dtype, shape in itertools.product(UNITS[fd], UNITS[td], DTYPES, ("scalar", "array")):
                     if dtype == "float32" and (fu != UNITS[fd][0] or tu != UNITS[td][0]):
-                        continue  # narrow floats: SI spellings only, so that every intermediate is an SI-sized number
+                        continue
+                    if dtype == "int64" and (eq == "lorentz" or fu not in UNITS[fd][:2] or tu not in UNITS[td][:2]):
+                        continue  # integer data: two spellings per side; 2, 4, 8 units of speed or of gamma are not both physical  # narrow floats: SI spellings only, so that every intermediate is an SI-sized number
                     src = make(src_values(eq, fd), fu, dtype, shape)
                     x_si = stored_si(src)
                     y_si = f(x_si)
@@ -197,7 +204,7 @@ def part_formula(ctx, shard):
                         if after != before:
                             ctx.violation(base + f"|entry={ename}|mode=copying-form-changed-its-input", case, str(before[1:]), str(after[1:]))
                         got = np.asarray(r.d if isinstance(r, unyt_array) else r, dtype=np.float64)
-                        if ename != "to_value":
+                        if not ename.startswith("to_value"):
                             if not isinstance(r, unyt_array) or dim_of(r.units.dimensions) != dim_of(Unit(tu).dimensions) or abs(float(r.units.base_value) / tscale - 1) > 1e-12:
                                 ctx.violation(base + f"|entry={ename}|mode=wrong-result-unit", case, tu, str(getattr(r, "units", None)))
                                 continue
